@@ -720,7 +720,10 @@ class Network:
             async with atimeout(timeout):
                 _, response = await future
         except TimeoutError as exc:
-            future.set_exception(exc)
+            # The timeout cancels the task which in turn cancels the awaited
+            # future, only set the exception if the future is still pending
+            if not future.done():
+                future.set_exception(exc)
             raise
 
         return response
@@ -760,7 +763,10 @@ class Network:
             async with atimeout(timeout):
                 _, response = await future
         except TimeoutError as exc:
-            future.set_exception(exc)
+            # The timeout cancels the task which in turn cancels the awaited
+            # future, only set the exception if the future is still pending
+            if not future.done():
+                future.set_exception(exc)
             raise
 
         return response
